@@ -160,13 +160,19 @@ def subst_any(o, s, Pm, seen, depth=0):
     return 0
 
 
-def make_hook(s, Pm):
+def make_hook(s, Pm, only=None):
+    """before-hook for sweep.execute: substitute (s) / count (s=None) the hidden elements of all
+    operands, or of the operand labelled `only`; token = {label: hidden elements}"""
     def before(desc, recv, operands):
         seen = set()
-        n = 0
+        per = {}
         for lab, o in operands:
-            n += subst_any(o, s, Pm, seen)
-        return n
+            if only is not None and lab != only:
+                continue
+            k = subst_any(o, s, Pm, seen)
+            if k:
+                per[lab] = per.get(lab, 0) + k
+        return per
     return before
 
 
@@ -197,8 +203,13 @@ def qobs(q, Pm, vis=None):
         d['denom'] = tuple(q._denom_)
         d['units'] = units_obs(q._units_)
         d['readonly'] = bool(q._readonly_)
-        va = np.asarray(q._values_)
-        d['dtype'] = va.dtype.kind
+        v = q._values_
+        va = np.asarray(v)
+        if isinstance(v, np.ndarray) or isinstance(v, np.generic):
+            d['dtype'] = va.dtype.kind
+        else:                                     # Python scalar: its kind is its type
+            d['dtype'] = 'b' if isinstance(v, bool) else ('i' if isinstance(v, int) else
+                                                          ('f' if isinstance(v, float) else type(v).__name__))
         em = np.broadcast_to(np.asarray(q._mask_, dtype=bool), shape)
         if vis is not None and vis.shape == shape:
             d['mask'] = em[vis].tobytes()
@@ -211,7 +222,7 @@ def qobs(q, Pm, vis=None):
                 vals = va[np.newaxis][np.asarray([bool(sel)])]
             else:
                 vals = va[sel]
-            d['values'] = (va.dtype.str, np.ascontiguousarray(vals).tobytes())
+            d['values'] = (va.dtype.str, np.ascontiguousarray(vals).tobytes()) if vals.size else ('', b'')
         else:
             d['values'] = ('malformed', str(va.shape))
         dv = {}
@@ -276,12 +287,16 @@ def outcome(ev, Pm):
     return out
 
 
+_KEY_ORDER = {'ok': 0, 'exc': 1, 'error': 2, 'T': 3, 'shape': 4, 'numer': 5, 'denom': 6, 'dtype': 7, 'units': 8,
+              'readonly': 9, 'mask': 10, 'values': 11, 'derivs': 12, 'result': 20, 'after': 30}
+
+
 def first_diff(a, b, path=''):
     """(path, a-part, b-part) of the first difference between two observations"""
     if type(a) != type(b):
         return (path, _sh(a), _sh(b))
     if isinstance(a, dict):
-        for k in sorted(set(a) | set(b), key=str):
+        for k in sorted(set(a) | set(b), key=lambda k: (_KEY_ORDER.get(k, 50), str(k))):
             if k not in a or k not in b:
                 return ('%s.%s' % (path, k), _sh(a.get(k, '<absent>')), _sh(b.get(k, '<absent>')))
             r = first_diff(a[k], b[k], '%s.%s' % (path, k))
@@ -335,19 +350,46 @@ EXEMPT_NAMES = {
 }
 
 
-def exempt(desc):
+_DEFAULTS = {}
+
+
+def _default_of(desc, pname, Pm):
+    """the default of a parameter of the callable named by the descriptor (None if there is none)"""
+    key = (desc['cls'], desc['name'], pname)
+    if key not in _DEFAULTS:
+        val = None
+        try:
+            import inspect
+            f = inspect.getattr_static(getattr(Pm, desc['cls']), desc['name'])
+            f = getattr(f, '__func__', f)
+            p = inspect.signature(f).parameters.get(pname)
+            if p is not None and p.default is not inspect.Parameter.empty:
+                val = p.default
+        except Exception:
+            val = None
+        _DEFAULTS[key] = val
+    return _DEFAULTS[key]
+
+
+def exempt(desc, Pm):
     """reason string when the call is outside the property, else None"""
     n = desc['name']
     if n in EXEMPT_NAMES:
         return 'raw-storage:' + n
     args = dict((p, s) for p, s in desc['args'])
-    if n in ('as_index', 'as_index_and_mask'):
-        ms = args.get('masked')
-        if ms is None or ms == ['omit'] or ms == ['lit', None]:
-            return 'raw-storage:as_index(masked=None)'
-    if args.get('check') == ['lit', False]:
+
+    def effective(pname):
+        sp = args.get(pname)
+        if sp is None:
+            return None
+        if sp == ['omit']:
+            return _default_of(desc, pname, Pm)
+        return sp[1] if sp[0] == 'lit' else '<obj>'
+    if n in ('as_index', 'as_index_and_mask') and 'masked' in args and effective('masked') is None:
+        return 'raw-storage:as_index(masked=None)'
+    if 'check' in args and effective('check') is False:
         return 'caller-promise:check=False'
-    if args.get('nozeros') == ['lit', True]:
+    if 'nozeros' in args and effective('nozeros') is True:
         return 'caller-promise:nozeros=True'
     return None
 
@@ -356,18 +398,21 @@ def exempt(desc):
 # (a) twin runs over the sweep
 # ---------------------------------------------------------------------------------------
 def twin_call(d, Pm, substs=None):
-    """-> (n_hidden, [ (subst, path, base-part, twin-part, kind, base-summary, twin-summary) ], stats)"""
+    """-> (hidden per operand label, [failure dicts], status).  A failure = one substitution under
+    which the outcome differs from the untouched run; `leak_from` names the operands whose hidden
+    values alone (all others untouched) already change the outcome."""
     ev0 = sweep.execute(d, Pm, before=make_hook(None, Pm))
     if ev0.fn is None:
-        return 0, [], 'build-error'
-    nh = ev0.token or 0
-    if nh == 0:
-        return 0, [], 'no-hidden'
+        return {}, [], 'build-error'
+    per = ev0.token or {}
+    if not per:
+        return {}, [], 'no-hidden'
     if ev0.exc_family and ev0.exc_family[0] == 'SweepTimeout':
-        return nh, [], 'timeout'
+        return per, [], 'timeout'
     o0 = outcome(ev0, Pm)
     fails = []
     wdiff = 0
+    checked = False
     for s in (substs or SUBST):
         ev1 = sweep.execute(d, Pm, before=make_hook(s, Pm))
         if ev1.exc_family and ev1.exc_family[0] == 'SweepTimeout':
@@ -377,13 +422,23 @@ def twin_call(d, Pm, substs=None):
             wdiff += 1
         if o1 == o0:
             continue
-        # determinism guard: the untouched run must reproduce itself
-        ev2 = sweep.execute(d, Pm, before=make_hook(None, Pm))
-        if outcome(ev2, Pm) != o0:
-            return nh, [], 'nondeterministic'
+        if not checked:       # determinism guard: the untouched run must reproduce itself
+            checked = True
+            ev2 = sweep.execute(d, Pm, before=make_hook(None, Pm))
+            if outcome(ev2, Pm) != o0:
+                return per, [], 'nondeterministic'
         path, pa, pb = first_diff(o0, o1)
-        fails.append((s, path, pa, pb, diff_kind(path, o0, o1), summary(o0), summary(o1)))
-    return nh, fails, ('warn-diff' if wdiff else 'ok')
+        leak = []
+        if len(per) > 1:
+            for lab in sorted(per):
+                evl = sweep.execute(d, Pm, before=make_hook(s, Pm, only=lab))
+                if outcome(evl, Pm) != o0:
+                    leak.append(lab)
+        else:
+            leak = sorted(per)
+        fails.append({'subst': s, 'path': path, 'a': pa, 'b': pb, 'kind': diff_kind(path, o0, o1),
+                      'base': summary(o0), 'twin': summary(o1), 'leak_from': leak})
+    return per, fails, ('warn-diff' if wdiff else 'ok')
 
 
 def summary(o):
@@ -404,32 +459,39 @@ def worker(chunk):
         stats[k] = stats.get(k, 0) + n
     for d in chunk:
         cnt('calls')
-        ex = exempt(d)
+        ex = exempt(d, Pm)
         if ex:
             cnt('exempt')
             cnt('exempt:' + ex)
             continue
-        nh, fails, st = twin_call(d, Pm)
+        per, fails, st = twin_call(d, Pm)
         cnt('st:' + st)
-        if nh:
+        if per:
             cnt('twinned')
             cnt('twin-runs', len(SUBST))
         for f in fails:
-            out.append((d['id'],) + f)
+            out.append((d['id'], f))
     return {'fail': out, 'stats': stats}
 
 
-def signature(desc, kind, path, subst, base_sum, twin_sum):
+def _role(lab):
+    return 'recv' if lab == 'recv' else lab.split('[')[0]
+
+
+def signature(desc, f):
+    """structured signature of a twin disagreement (matched against known findings)"""
     args = dict((p, s) for p, s in desc['args'])
     r = desc.get('recv') or {}
-    sig = {'kind': 'sweep', 'method': desc['name'], 'cls': desc['cls'], 'diff': kind,
-           'recv_kind': r.get('kind'), 'recv_mask': r.get('mask'),
-           'recv_derivs': r.get('derivs', 'none') != 'none',
+    path = f['path']
+    exc = None
+    for k in ('twin', 'base'):
+        if f[k].startswith('raised'):
+            exc = f[k][7:]
+            break
+    sig = {'kind': 'sweep', 'method': desc['name'], 'cls': desc['cls'], 'diff': f['kind'],
+           'leak_from': '+'.join(sorted(set(_role(x) for x in f['leak_from']))) or 'joint',
            'where': 'derivs' if '.derivs' in path else ('after' if path.startswith('.after') else 'result'),
-           'exc': twin_sum if twin_sum.startswith('raised') else (base_sum if base_sum.startswith('raised') else None)}
-    for k in ('masked', 'index', 'builtins', 'recursive'):
-        if k in args:
-            sig['arg_' + k] = json.dumps(args[k])
+           'item_rank': len(r.get('item') or []), 'recv_kind': r.get('kind'), 'exc': exc}
     return sig
 
 
@@ -457,16 +519,17 @@ def run(ctx):
     for res in results:
         for k, v in res['stats'].items():
             tot[k] = tot.get(k, 0) + v
-        for cid, s, path, pa, pb, kind, bs, ts in res['fail']:
+        for cid, f in res['fail']:
             d = byid[cid]
-            sig = signature(d, kind, path, s, bs, ts)
+            sig = signature(d, f)
             ctx.count('twin-disagreements')
             key = json.dumps(sig, sort_keys=True, default=str)
             if key in seen:
                 continue
             seen.add(key)
-            ctx.fail(sig, {'call': d, 'subst': s},
-                     {'call': sweep.describe(d), 'first_difference': [path, pa, pb], 'untouched': bs, 'twin': ts})
+            ctx.fail(sig, {'call': d, 'subst': f['subst']},
+                     {'call': sweep.describe(d), 'first_difference': [f['path'], f['a'], f['b']],
+                      'untouched': f['base'], 'twin': f['twin'], 'leak_from': f['leak_from']})
     for k, v in sorted(tot.items()):
         ctx.count('sweep:' + k, v)
     ctx.evaluations += tot.get('twin-runs', 0) + tot.get('twinned', 0)
@@ -486,12 +549,13 @@ def replay(path):
     if 'call' in c:
         print('call      :', sweep.describe(c['call']))
         print('subst     :', c['subst'])
-        nh, fails, st = twin_call(c['call'], Pm, substs=[c['subst']])
-        print('hidden elements:', nh, 'status:', st)
-        for s, p, pa, pb, kind, bs, ts in fails:
-            print('  untouched :', bs)
-            print('  twin      :', ts)
-            print('  first difference at %s [%s]:\n     %s\n     %s' % (p, kind, pa, pb))
+        per, fails, st = twin_call(c['call'], Pm, substs=[c['subst']])
+        print('hidden elements:', per, 'status:', st)
+        for f in fails:
+            print('  untouched :', f['base'])
+            print('  twin      :', f['twin'])
+            print('  leak from :', f['leak_from'])
+            print('  first difference at %s [%s]:\n     %s\n     %s' % (f['path'], f['kind'], f['a'], f['b']))
         bad = bool(fails)
     print('property FAILS on this case' if bad else 'property holds on this case')
     return 1 if bad else 0
